@@ -1247,3 +1247,20 @@ def run_C16(ctx):
         ASSUME_COMMON + ["wait() runs under a 10 s watchdog (its expiry is the 'hang' verdict); thread termination after drop is awaited for up to 10 s",
                          "a peer closing with an unread reply (ECONNRESET) is mapped to Ok by the library by design and is not part of these schedules"],
         viol)
+
+
+# ---------------------------------------------------------------------------------------------
+# Beyond the listed properties: behaviour the specification covers and binds to the code the same way
+def run_X01(ctx):
+    """Sticky failure state of the endpoints (EndpointFailure.tla)."""
+    cases = ctx.tlc_mc("MC_EndpointFailure", "MC_EndpointFailure")
+    cases = replay_or(ctx, "sticky", cases)
+    tr = ctx.harness("sticky", cases, shards=4)
+    viol = ctx.tlc_tv("TV_EndpointFailure", tr, "sticky")
+    ctx.count_distinct(tr, lambda e: (e.get("res"), e.get("errno"), e.get("wrote", 0) > 0, e.get("consumed"), e.get("ncalls")), lambda e: e.get("ev") == "op")
+    ctx.exhaustive = True
+    return ctx.finish("model_checking",
+        "EndpointFailure.tla: all histories of depth 4 over {set_failed(0|5|11|104), one operation} for the Backend proxy, GpuBackend, "
+        "BackendReqHandler and FrontendReqHandler are model-checked (nothing reaches the wire / the handler while failed) and replayed on the "
+        "real endpoints; TLC compares result, errno (request servers), bytes received by the peer, whether the pending request was consumed "
+        "and whether the handler ran", ASSUME_COMMON, viol)
